@@ -754,7 +754,11 @@ func genQueries(rng *rand.Rand, h *gHost, n int, withBinary int) []ifQuery {
 		}
 	}
 	srcips := []string{"-", "-", "-", hex.EncodeToString(net.ParseIP("10.77.0.9")), hex.EncodeToString(net.ParseIP("10.77.0.9").To4()),
-		hex.EncodeToString(net.ParseIP("fd00::77")), hex.EncodeToString(net.ParseIP("::1"))}
+		hex.EncodeToString(net.ParseIP("fd00::77")), hex.EncodeToString(net.ParseIP("::1")),
+		// the unspecified addresses are addresses too: 0.0.0.0 is a usable IPv4 source (the RFC 5227 ARP probe
+		// sender), `::` is not IPv4 and must be refused — neither means "no --srcip given"
+		hex.EncodeToString(net.ParseIP("0.0.0.0")), hex.EncodeToString(net.ParseIP("0.0.0.0").To4()), hex.EncodeToString(net.ParseIP("::")),
+		hex.EncodeToString(net.ParseIP("255.255.255.255").To4())}
 	srcmacs := []string{"-", "-", "-", "02aabbccddee", "0200000000000001"}
 	pickIface := func() string {
 		switch k := rng.Intn(10); {
